@@ -80,7 +80,7 @@ TraceEnd ==
 
 \* Close after the last Write (C07): the directory is empty, a later request returns with a non-200 status
 TraceClosed ==
-  /\ l <= Len(Trace) /\ Trace[l].ev = "closed"
+  /\ l <= Len(Trace) /\ Trace[l].ev \in {"closed", "tok"}
   /\ UNCHANGED <<cfg, mon, mm, mode>>
   /\ l' = l + 1
 
